@@ -2,6 +2,8 @@
 package c04
 
 import (
+	"sync"
+	"strings"
 	"bytes"
 	"fmt"
 	"testing"
@@ -132,6 +134,14 @@ func runClean(sc scen.Scenario) (w []byte, frames []frameInfo, sa *scen.Station,
 	if out.Hung || out.A.PSig != "" || out.B.PSig != "" || out.A.Err != nil || out.B.Err != nil {
 		return nil, nil, nil, "clean-run-failed", fmt.Sprintf("clean exchange failed: hung=%v A=%v/%s B=%v/%s", out.Hung, out.A.Err, out.A.PSig, out.B.Err, out.B.PSig)
 	}
+	// also without any alteration the handler must get exactly what the sender compressed
+	for mid, copies := range sb.Box.Inbox {
+		for _, cp := range copies {
+			if !bytes.Equal(cp, sa.Bytes[mid]) {
+				return nil, nil, nil, "damaged-message-delivered", fmt.Sprintf("UNALTERED transfer: message %s was handed to the inbound handler with content that differs from what the sender compressed (%d vs %d bytes, first difference at byte %d)", mid, len(cp), len(sa.Bytes[mid]), firstDiff(cp, sa.Bytes[mid]))
+			}
+		}
+	}
 	w = out.EndA.Written()
 	frames, err = locate(w)
 	if err != nil {
@@ -234,6 +244,14 @@ func run(c Case, clean []byte, frames []frameInfo) (sig, msg string, r result) {
 	return "", "", r
 }
 
+func firstDiff(a, b []byte) int {
+	i := 0
+	for i < len(a) && i < len(b) && a[i] == b[i] {
+		i++
+	}
+	return i
+}
+
 func genScenario(t *rapid.T) scen.Scenario {
 	used := map[string]bool{}
 	sc := scen.Scenario{AIsMaster: rapid.Bool().Draw(t, "a_master"), Gzip: rapid.IntRange(0, 3).Draw(t, "gzip") == 0}
@@ -275,8 +293,26 @@ func genScenario(t *rapid.T) scen.Scenario {
 	return sc
 }
 
+var warm sync.Once
+
+// warmUp: the receiving process has handled traffic before (one clean transfer of a 3 KiB text message), so that
+// whatever state the library carries from one decompression to the next is not in its pristine condition.
+func warmUp() {
+	warm.Do(func() {
+		body := strings.Repeat("The quick brown fox jumps over the lazy dog 0123456789.\r\n", 60)
+		sc := scen.Scenario{A: scen.Side{Call: "LA5NTA", Sched: []int{4096}, Queue: []msggen.Spec{{MID: "WARMUP000001", From: "LA5NTA", To: []string{"N0CALL"}, Subject: "warm up", Body: body, Minute: 1}}}, B: scen.Side{Call: "N0CALL", Sched: []int{4096}}}
+		sa, err := scen.NewStation(sc.A)
+		if err != nil {
+			return
+		}
+		sb, _ := scen.NewStation(sc.B)
+		scen.RunSession(sc, sa, sb, scen.Hooks{})
+	})
+}
+
 func TestProp(t *testing.T) {
 	rapid.Check(t, func(t *rapid.T) {
+		warmUp()
 		sc := genScenario(t)
 		clean, frames, _, sig, msg := runClean(sc)
 		harness.Eval()
